@@ -53,6 +53,7 @@ MODES = [
 
 
 class Server:
+    _started = 0
     def __init__(self, mode, cwd, files):
         self.mode = mode
         self.cwd = cwd
@@ -74,7 +75,10 @@ class Server:
             self.streams = [open(os.path.join(self.cwd, self.files[k]), encoding="utf8") for k in ("base", "remote")]
             params["difftool_args"] = {"base": self.streams[0], "remote": self.streams[1]}
         if name.startswith("mergetool"):
-            params["mergetool_args"] = {"base": self.files["base"], "local": self.files["local"], "remote": self.files["remote"]}
+            # (init_app takes a mapping: its members come in whatever order the embedding code wrote them)
+            order = [["base", "local", "remote"], ["local", "remote", "base"], ["remote", "base", "local"]][Server._started % 3]
+            Server._started += 1
+            params["mergetool_args"] = {k: self.files[k] for k in order}
             if name == "mergetool-out":
                 params["outputfilename"] = "merged-output.ipynb"
 
